@@ -42,14 +42,36 @@ static Res exec(const Op &op, bool track) {
   return r;
 }
 
+// the shortest possible path from asm_create_instance to the first table lookup (used for the first operation of a
+// fresh process, where the only question is whether the very first instances can be created concurrently)
+static Res exec_min(const Op &op) {
+  Res r{0, 0, 0, 0}; uint8_t buf[256];
+  assemblyline_t a = asm_create_instance(buf, sizeof buf);
+  r.rc = asm_assemble_str(a, op.program.c_str());
+  r.off = asm_get_offset(a);
+  if (r.rc == 0 && r.off > 0 && r.off <= (int)sizeof buf) { uint64_t h = 1469598103934665603ULL; for (int i = 0; i < r.off; i++) { h ^= buf[i]; h *= 1099511628211ULL; } r.hash = h; }
+  asm_destroy_instance(a);
+  return r;
+}
+static bool g_threads_first = false;
 struct ThreadArg { std::vector<Op> *script; std::vector<Res> *out; pthread_barrier_t *bar; };
-static void *worker(void *p) { ThreadArg *t = (ThreadArg *)p; pthread_barrier_wait(t->bar); for (auto &op : *t->script) t->out->push_back(exec(op, true)); return nullptr; }
+static std::atomic<int> ready{0}; static std::atomic<bool> go{false};
+// all threads leave the gate within nanoseconds of each other (a pthread barrier wakes them one by one)
+// warm up everything that is not the library's own state: this thread's malloc arena, the text pages of the binary and the
+// script's strings, so that the first library calls of all threads really overlap
+static volatile unsigned char g_sink;
+static void warm_up(std::vector<Op> *script) {
+  void *w = malloc(sizeof(void *) * 16); free(w);
+  FILE *m = fopen("/proc/self/maps", "r"); if (m) { char line[512]; while (fgets(line, sizeof line, m)) { unsigned long a, b; char perm[8]; if (sscanf(line, "%lx-%lx %7s", &a, &b, perm) == 3 && perm[2] == 'x' && perm[0] == 'r' && b - a < (64u << 20) && strstr(line, "[v") == nullptr) for (unsigned long q = a; q < b; q += 4096) g_sink ^= *(volatile unsigned char *)q; } fclose(m); }
+  for (auto &op : *script) for (char ch : op.program) g_sink ^= (unsigned char)ch;
+}
+static void *worker(void *p) { ThreadArg *t = (ThreadArg *)p; t->out->reserve(t->script->size()); if (g_threads_first) warm_up(t->script); ready++; while (!go.load(std::memory_order_acquire)) { } bool first = g_threads_first; for (auto &op : *t->script) { t->out->push_back(first ? exec_min(op) : exec(op, true)); first = false; } return nullptr; }
 
 int main(int argc, char **argv) {
   if (argc < 5) { fprintf(stderr, "usage: c18_threads seed nthreads scripts rounds [threads-first]\n"); return 2; }
   uint64_t seed = strtoull(argv[1], nullptr, 10); int nth = atoi(argv[2]), nops = atoi(argv[3]), rounds = atoi(argv[4]);
   // threads-first: the concurrent phase is the very first use of the library in this process (the reference is computed afterwards)
-  bool threads_first = argc > 5;
+  bool threads_first = argc > 5; g_threads_first = threads_first;
   std::string dir = std::string(getenv("VERIF_ROOT") ? getenv("VERIF_ROOT") : "/verif") + "/build/tmp"; mkdir((std::string(getenv("VERIF_ROOT") ? getenv("VERIF_ROOT") : "/verif") + "/build").c_str(), 0755); mkdir(dir.c_str(), 0755); dir += "/t" + std::to_string(getpid()); mkdir(dir.c_str(), 0755);
   // keep the library's stderr chatter out of the sanitizer report
   Pool P = threads_first ? Pool() : build_pool(seed, 1);
@@ -66,7 +88,8 @@ int main(int argc, char **argv) {
       int n = 1 + (int)r.below(12); bool failing = r.below(6) == 0;
       for (int k = 0; k < n; k++) { if (failing && k == n / 2) op.program += P.bad[r.below(P.bad.size())] + "\n"; op.program += P.lines[r.below(P.lines.size())] + "\n"; }
       // lookups of every first letter: lines start with different mnemonics by construction of the pool
-      int fsel = (int)r.below(10);
+      if (threads_first && i == 0) { op.internal = false; op.mode = 0; op.start = 0; op.yield_mask = 0; static const char *LATE[] = {"xend", "xend", "xor rax, rax", "xend", "sfence", "xchg rbx, rcx", "xend", "vpxor ymm1, ymm2, ymm3"}; op.program = std::string(LATE[(t + round) % 8]) + "\n"; } // late first letters, cheapest tokenisation
+      int fsel = threads_first && i == 0 ? 9 : (int)r.below(10);
       if (fsel < 3) { op.via_file = 1; op.path = dir + "/p" + std::to_string(t) + "_" + std::to_string(i) + ".asm"; FILE *f = fopen(op.path.c_str(), "wb"); if (f) { fwrite(op.program.data(), 1, op.program.size(), f); fclose(f); } }
       else if (fsel == 3) { op.via_file = 2; op.path = dir; }
       else if (fsel == 4) op.via_file = 3;
@@ -75,10 +98,13 @@ int main(int argc, char **argv) {
     if (!threads_first) for (int t = 0; t < nth; t++) for (auto &op : scripts[t]) ref[t].push_back(exec(op, false));   // single-threaded reference
     pthread_barrier_t bar; pthread_barrier_init(&bar, nullptr, nth);
     std::vector<pthread_t> th(nth); std::vector<ThreadArg> args(nth);
+    ready = 0; go = false;
     for (int t = 0; t < nth; t++) { args[t] = {&scripts[t], &got[t], &bar}; pthread_create(&th[t], nullptr, worker, &args[t]); }
+    while (ready.load() < nth) sched_yield();
+    go.store(true, std::memory_order_release);
     for (int t = 0; t < nth; t++) pthread_join(th[t], nullptr);
     pthread_barrier_destroy(&bar);
-    if (threads_first) for (int t = 0; t < nth; t++) for (auto &op : scripts[t]) ref[t].push_back(exec(op, false));   // reference computed after the threads
+    if (threads_first) for (int t = 0; t < nth; t++) { bool first = true; for (auto &op : scripts[t]) { ref[t].push_back(first ? exec_min(op) : exec(op, false)); first = false; } }   // reference computed after the threads
     for (int t = 0; t < nth; t++) for (size_t i = 0; i < scripts[t].size(); i++) { evals++; if (i >= got[t].size() || !(got[t][i] == ref[t][i])) { mismatches++; if (first.empty()) { char b[200]; snprintf(b, sizeof b, "round %d thread %d op %zu: concurrent rc=%d off=%d cnt=%d, alone rc=%d off=%d cnt=%d", round, t, i, i < got[t].size() ? got[t][i].rc : -9, i < got[t].size() ? got[t][i].off : -9, i < got[t].size() ? got[t][i].cnt : -9, ref[t][i].rc, ref[t][i].off, ref[t][i].cnt); first = b; first += " ; program: " + hz::jesc(scripts[t][i].program.substr(0, 200)); } } }
   }
   printf("{\"evaluations\":%ld,\"mismatches\":%ld,\"overlaps\":%ld,\"threads\":%d,\"first\":\"%s\"}\n", evals, mismatches, overlaps.load(), nth, hz::jesc(first).c_str());
